@@ -14,38 +14,36 @@ import (
 
 // env is the per-worker runtime with the script-level front ends of every conversion.
 type env struct {
-	vm                                            *goja.Runtime
-	str, cat, fix, exp, expu, prec, rad, rad0, rt goja.Callable
-	num, plus, pf, pi, pi1, js                    goja.Callable
-	fixAll, expAll, precAll, radAll               goja.Callable
-	child                                         *child
-	isChild                                       bool
-	hangs                                         int           // requests the child gave up on so far
-	busySince                                     atomic.Int64  // start of the conversion in progress (unix ns), 0 = idle
-	busyX                                         atomic.Uint64 // its x
-	model                                         nm.Num        // model of the x being worked on
-	ver                                           nm.Verifier
-	generate                                      bool // also compare shortest digits with the generative model (D1, D4)
+	vm                                 *goja.Runtime
+	str, fix, exp, expu, prec, rad, rt goja.Callable
+	num, plus, pf, pi, pi1, js         goja.Callable
+	fixAll, expAll, precAll, radAll    goja.Callable
+	child                              *child
+	isChild                            bool
+	hangs                              int           // requests the child gave up on so far
+	busySince                          atomic.Int64  // start of the conversion in progress (unix ns), 0 = idle
+	busyX                              atomic.Uint64 // its x
+	model                              nm.Num        // model of the x being worked on
+	ver                                nm.Verifier
+	generate                           bool // also compare shortest digits with the generative model (D1, D4)
 }
 
 // reset replaces the runtime after a Go panic escaped from it.
 func (e *env) reset() {
 	n := newEnv()
 	e.vm = n.vm
-	e.str, e.cat, e.fix, e.exp, e.expu, e.prec, e.rad, e.rad0, e.rt = n.str, n.cat, n.fix, n.exp, n.expu, n.prec, n.rad, n.rad0, n.rt
+	e.str, e.fix, e.exp, e.expu, e.prec, e.rad, e.rt = n.str, n.fix, n.exp, n.expu, n.prec, n.rad, n.rt
 	e.num, e.plus, e.pf, e.pi, e.pi1, e.js = n.num, n.plus, n.pf, n.pi, n.pi1, n.js
 	e.fixAll, e.expAll, e.precAll, e.radAll = n.fixAll, n.expAll, n.precAll, n.radAll
 }
 
 const envSrc = `({
  str:  function(x){ return String(x) },
- cat:  function(x){ return "" + x },
  fix:  function(x,n){ return x.toFixed(n) },
  exp:  function(x,n){ return x.toExponential(n) },
  expu: function(x){ return x.toExponential() },
  prec: function(x,n){ return x.toPrecision(n) },
  rad:  function(x,r){ return x.toString(r) },
- rad0: function(x){ return x.toString() },
  rt:   function(x){ return Number(String(x)) },
  num:  function(s){ return Number(s) },
  plus: function(s){ return +s },
@@ -75,8 +73,8 @@ func newEnv() *env {
 		}
 		return f
 	}
-	e.str, e.cat, e.fix, e.exp, e.expu, e.prec = get("str"), get("cat"), get("fix"), get("exp"), get("expu"), get("prec")
-	e.rad, e.rad0, e.rt = get("rad"), get("rad0"), get("rt")
+	e.str, e.fix, e.exp, e.expu, e.prec = get("str"), get("fix"), get("exp"), get("expu"), get("prec")
+	e.rad, e.rt = get("rad"), get("rt")
 	e.num, e.plus, e.pf, e.pi, e.pi1, e.js = get("num"), get("plus"), get("pf"), get("pi"), get("pi1"), get("js")
 	e.fixAll, e.expAll, e.precAll, e.radAll = get("fixAll"), get("expAll"), get("precAll"), get("radAll")
 	return e
